@@ -29,6 +29,7 @@ type c28Case struct {
 	// `<base><F>` used as `<base><+F>` (its instance is called <base>_<F>).
 	Feat int       `json:"feat,omitempty"`
 	Tmpl [2]string `json:"tmpl,omitempty"`
+	Flex bool      `json:"flex,omitempty"` // cc target with flexMode = true (its own lexer declarations path)
 }
 
 var c28Ident = regexp.MustCompile(`^[A-Za-z_][A-Za-z0-9_]*$`)
@@ -64,6 +65,10 @@ var c28QuotedAtoms = []string{
 }
 
 func c28GenQuoted(t *rapid.T, label string) string {
+	if rapid.IntRange(0, 7).Draw(t, label+"dq") == 0 {
+		// the double-quoted spelling, including the empty name
+		return []string{`""`, `"a"`, `"+"`, `"ab"`, `"_"`, `"1"`, `" "`}[rapid.IntRange(0, 6).Draw(t, label+"dqName")]
+	}
 	n := rapid.IntRange(0, 5).Draw(t, label+"len")
 	var sb strings.Builder
 	sb.WriteByte('\'')
@@ -139,7 +144,9 @@ func c28Gen(t *rapid.T) c28Case {
 		}
 		other := ident.Produce(c.Terms[rapid.IntRange(0, i-1).Draw(t, "idOf")], ident.UpperCase)
 		var id string
-		switch rapid.IntRange(0, 4).Draw(t, "idKind") {
+		switch rapid.IntRange(0, 5).Draw(t, "idKind") {
+		case 5: // the identifier of a built-in terminal
+			id = []string{"EOI", "INVALID_TOKEN", "ERROR", "eoi", "Eoi"}[rapid.IntRange(0, 4).Draw(t, "builtinID")]
 		case 0:
 			id = other
 		case 1:
@@ -188,6 +195,7 @@ func c28Gen(t *rapid.T) c28Case {
 			}
 		}
 	}
+	c.Flex = rapid.IntRange(0, 4).Draw(t, "flex") == 0
 	// derived symbols
 	if rapid.Bool().Draw(t, "derived") {
 		c.Feat = rapid.IntRange(1, 15).Draw(t, "feat")
@@ -252,7 +260,11 @@ func c28NameClass(name string) string {
 
 func c28Grammar(c c28Case) string {
 	var sb strings.Builder
-	sb.WriteString("language g(go);\n\n:: lexer\n\n")
+	if c.Flex {
+		sb.WriteString("language g(cc);\n\nnamespace = \"g\"\nflexMode = true\n\n:: lexer\n\n")
+	} else {
+		sb.WriteString("language g(go);\n\n:: lexer\n\n")
+	}
 	for i, tname := range c.Terms {
 		if id, ok := c.IDs[i]; ok {
 			fmt.Fprintf(&sb, "%s (%s): /%c/\n", tname, id, 'a'+i)
@@ -388,7 +400,7 @@ func c28Check(c c28Case, r *ev.Recorder) *Failure {
 func TestC28(t *testing.T) {
 	p := &prop[c28Case]{
 		ID:   "C28",
-		Rule: "60% single names: identifiers matching the tm lexer's ID rule (letters, digits, '_' and inner '-', 1..7 chars) or quoted ids '...' of 0..5 atoms (ASCII punctuation, letters, digits, control chars, backslash escapes, non-ASCII BMP and astral runes), each converted with all four ident styles and checked to be non-empty, ASCII [A-Za-z_][A-Za-z0-9_]*, ident.IsValid and in the requested casing; 40% grammars declaring 1..4 terminals and 1..3 nonterminals where names are derived from each other to collide ('-' vs '_', case variants, '+' vs plus, the derived spellings xopt / x_list / x_optlist), half of them with symbols the compiler derives itself (an optional terminal, a group list, a mid-rule action, a `+` list in one rule; a templated nonterminal whose instance name base_F is spelled like a terminal), compiled with compiler.Compile: accepted grammars must give every symbol a non-empty valid identifier and pairwise distinct identifiers. Non-trivial: quoted name with >=2 atoms or id with '_', '-' or a digit; grammar with >=3 symbols or a reported collision. Distinct by name / grammar text.",
+		Rule: "60% single names: identifiers matching the tm lexer's ID rule (letters, digits, '_' and inner '-', 1..7 chars) or quoted ids '...' of 0..5 atoms (ASCII punctuation, letters, digits, control chars, backslash escapes, non-ASCII BMP and astral runes), each converted with all four ident styles and checked to be non-empty, ASCII [A-Za-z_][A-Za-z0-9_]*, ident.IsValid and in the requested casing; 40% grammars declaring 1..4 terminals and 1..3 nonterminals where names are derived from each other to collide ('-' vs '_', case variants, '+' vs plus, the derived spellings xopt / x_list / x_optlist), half of them with symbols the compiler derives itself (an optional terminal, a group list, a mid-rule action, a `+` list in one rule; a templated nonterminal whose instance name base_F is spelled like a terminal), a quarter of the terminals with an explicit identifier (another terminal's, in lower case, with an inner dash, or the identifier of eoi / invalid_token / error), an eighth of the quoted names in double quotes (incl. the empty name), a fifth of the grammars for the cc target with flexMode, compiled with compiler.Compile: accepted grammars must give every symbol a non-empty valid identifier and pairwise distinct identifiers. Non-trivial: quoted name with >=2 atoms or id with '_', '-' or a digit; grammar with >=3 symbols or a reported collision. Distinct by name / grammar text.",
 		Quick: 100000, Thorough: 6000000,
 		Gen:   c28Gen,
 		Check: c28Check,
